@@ -94,6 +94,28 @@ Proof.
   - destruct (raw_get base (b_round b)); [reflexivity|]. simpl. rewrite H. reflexivity.
 Qed.
 
+Lemma raw_get_del_same : forall base r, raw_get (raw_del base r) r = None.
+Proof.
+  induction base as [|x t IH]; intro r; simpl; [reflexivity|].
+  destruct (b_round x =? r) eqn:E; simpl; [apply IH|]. rewrite E. apply IH.
+Qed.
+
+Lemma raw_get_del_other : forall base r r', r <> r' -> raw_get (raw_del base r) r' = raw_get base r'.
+Proof.
+  induction base as [|x t IH]; intros r r' H; simpl; [reflexivity|].
+  destruct (b_round x =? r) eqn:E; simpl.
+  - apply Z.eqb_eq in E. replace (b_round x =? r') with false by (symmetry; apply Z.eqb_neq; lia).
+    apply IH; exact H.
+  - destruct (b_round x =? r'); [reflexivity|]. apply IH; exact H.
+Qed.
+
+Lemma raw_put_never_empty : forall bk base b, raw_put bk base b <> [].
+Proof.
+  intros bk base b. destruct bk; simpl; [discriminate|].
+  destruct (raw_get base (b_round b)) eqn:E; [|discriminate].
+  destruct base; [discriminate|discriminate].
+Qed.
+
 Lemma store_form_round : forall c b, b_round (store_form c b) = b_round b.
 Proof. intros [] b; reflexivity. Qed.
 
@@ -151,6 +173,11 @@ Section GENERIC.
 
   Definition all_vfy (ws : list beacon) : Prop := Forall (fun b => vfy b = true) ws.
 
+  (* what one logged write does to the raw store: a Put through the stack, or Del + Put on the
+     re-sync path *)
+  Definition apply_write (resync : bool) (base : raw) (b : beacon) : raw :=
+    if resync then raw_put bk (raw_del base (b_round b)) b else raw_put bk base b.
+
   Lemma stack_put_inr : forall st b st', stack_put chained bk sk st b = inr st' ->
     st' = mkS (raw_put bk (s_base st) (store_form chained b)) (store_form chained b)
     /\ (sk = SkAppend -> b_round b = b_round (s_wlast st) + 1)
@@ -175,7 +202,7 @@ Section GENERIC.
   (* [o] is a possible outcome from [st]: writes verify, the raw store grew by the writes *)
   Definition tn_gen (resync : bool) (st : store) (o : tn_out) : Prop :=
     all_vfy (tn_ws o) /\
-    s_base (tn_st o) = fold_left (raw_put bk) (map (stored_of resync) (tn_ws o)) (s_base st) /\
+    s_base (tn_st o) = fold_left (apply_write resync) (map (stored_of resync) (tn_ws o)) (s_base st) /\
     (resync = true -> s_wlast (tn_st o) = s_wlast st).
 
   Lemma tn_gen_nil : forall resync r st, tn_gen resync st (mkTn r st []).
@@ -183,7 +210,7 @@ Section GENERIC.
 
   Lemma tn_gen_step : forall resync st st1 b o r,
     vfy b = true ->
-    s_base st1 = raw_put bk (s_base st) (stored_of resync b) ->
+    s_base st1 = apply_write resync (s_base st) (stored_of resync b) ->
     (resync = true -> s_wlast st1 = s_wlast st) ->
     tn_gen resync st1 o ->
     tn_gen resync st (mkTn r (tn_st o) (b :: tn_ws o)).
@@ -253,7 +280,7 @@ Section GENERIC.
   (* the same for Sync, over any list of peers *)
   Definition sy_gen (resync : bool) (st : store) (st' : store) (ws : list beacon) : Prop :=
     all_vfy ws /\
-    s_base st' = fold_left (raw_put bk) (map (stored_of resync) ws) (s_base st) /\
+    s_base st' = fold_left (apply_write resync) (map (stored_of resync) ws) (s_base st) /\
     (resync = true -> s_wlast st' = s_wlast st).
 
   Lemma sy_gen_refl : forall resync st, sy_gen resync st st [].
@@ -902,105 +929,91 @@ Section REPAIR.
   Definition valid_at (base : raw) (r : Z) : Prop :=
     exists b, raw_get base r = Some b /\ vfy b = true.
 
-  Lemma raw_put_keeps_valid : forall base w r b, vfy w = true ->
+  (* one re-sync write: Del + Put *)
+  Definition replace (base : raw) (w : beacon) : raw := apply_write bk true base w.
+
+  Lemma replace_get_same : forall base w, raw_get (replace base w) (b_round w) = Some w.
+  Proof.
+    intros base w. unfold replace, apply_write. destruct bk; simpl.
+    - rewrite Z.eqb_refl. reflexivity.
+    - rewrite raw_get_del_same. simpl. rewrite Z.eqb_refl. reflexivity.
+  Qed.
+
+  Lemma replace_get_other : forall base w r, b_round w <> r ->
+    raw_get (replace base w) r = raw_get base r.
+  Proof.
+    intros base w r H. unfold replace, apply_write.
+    rewrite (raw_get_put_other bk _ w r H). apply raw_get_del_other. exact H.
+  Qed.
+
+  Lemma replace_keeps_valid : forall base w r b, vfy w = true ->
     raw_get base r = Some b -> vfy b = true ->
-    exists b', raw_get (raw_put bk base w) r = Some b' /\ vfy b' = true /\ b_sig b' = b_sig b.
+    exists b', raw_get (replace base w) r = Some b' /\ vfy b' = true /\ b_sig b' = b_sig b.
   Proof.
     intros base w r b Hw Hg Hb. destruct (Z.eq_dec (b_round w) r) as [E|E].
-    - destruct bk; simpl.
-      + exists w. rewrite E, Z.eqb_refl. split; [reflexivity|]. split; [exact Hw|].
-        apply raw_get_in in Hg. destruct Hg as [_ Hr].
-        rewrite (vfy_sig w Hw), (vfy_sig b Hb). congruence.
-      + rewrite E, Hg. exists b. auto.
-    - rewrite (raw_get_put_other bk base w r E). exists b. auto.
+    - exists w. subst r. rewrite replace_get_same. split; [reflexivity|]. split; [exact Hw|].
+      apply raw_get_in in Hg. destruct Hg as [_ Hr].
+      rewrite (vfy_sig w Hw), (vfy_sig b Hb). congruence.
+    - rewrite (replace_get_other base w r E). exists b. auto.
   Qed.
 
   Lemma fold_keeps_valid : forall ws base r b, Forall (fun w => vfy w = true) ws ->
     raw_get base r = Some b -> vfy b = true ->
-    exists b', raw_get (fold_left (raw_put bk) ws base) r = Some b' /\ vfy b' = true /\ b_sig b' = b_sig b.
+    exists b', raw_get (fold_left replace ws base) r = Some b' /\ vfy b' = true /\ b_sig b' = b_sig b.
   Proof.
     induction ws as [|w ws IH]; intros base r b Hall Hg Hb; simpl.
     - exists b. auto.
     - inversion Hall as [|? ? Hw Hws]; subst.
-      destruct (raw_put_keeps_valid base w r b Hw Hg Hb) as [b1 [G1 [V1 S1]]].
+      destruct (replace_keeps_valid base w r b Hw Hg Hb) as [b1 [G1 [V1 S1]]].
       destruct (IH _ r b1 Hws G1 V1) as [b2 [G2 [V2 S2]]].
       exists b2. split; [exact G2|]. split; [exact V2|congruence].
   Qed.
 
   Lemma fold_keeps_valid_at : forall ws base r, Forall (fun w => vfy w = true) ws ->
-    valid_at base r -> valid_at (fold_left (raw_put bk) ws base) r.
+    valid_at base r -> valid_at (fold_left replace ws base) r.
   Proof.
     intros ws base r Hall [b [Hg Hb]].
     destruct (fold_keeps_valid ws base r b Hall Hg Hb) as [b' [G [V _]]]. exists b'. auto.
   Qed.
 
-  (* a Put of a verifying beacon of round r makes round r valid, unless the back-end keeps an
-     invalid beacon it already holds *)
-  Definition repairable (base : raw) (r : Z) : Prop :=
-    bk = BkOverwrite \/ raw_get base r = None \/ valid_at base r.
+  (* on every back-end a re-sync write of a verifying beacon makes its round valid *)
+  Lemma put_valid_at : forall base w, vfy w = true -> valid_at (replace base w) (b_round w).
+  Proof. intros base w Hw. exists w. split; [apply replace_get_same|exact Hw]. Qed.
 
-  Lemma put_valid_at : forall base w, vfy w = true -> repairable base (b_round w) ->
-    valid_at (raw_put bk base w) (b_round w).
-  Proof.
-    intros base w Hw [Hb|[Hn|Hv]].
-    - rewrite Hb. exists w. rewrite raw_get_put_same. auto.
-    - exists w. split; [|exact Hw]. destruct bk; simpl.
-      + rewrite Z.eqb_refl. reflexivity.
-      + rewrite Hn. simpl. rewrite Z.eqb_refl. reflexivity.
-    - apply (fold_keeps_valid_at [w]); [constructor; [exact Hw|constructor]|exact Hv].
-  Qed.
+  Lemma replace_nonempty : forall base w, replace base w <> [].
+  Proof. intros base w. unfold replace, apply_write. apply raw_put_never_empty. Qed.
 
-  Lemma raw_put_repairable : forall base w r, vfy w = true -> repairable base r ->
-    repairable (raw_put bk base w) r.
-  Proof.
-    intros base w r Hw [Hb|[Hn|Hv]].
-    - left; exact Hb.
-    - destruct (Z.eq_dec (b_round w) r) as [E|E].
-      + right. right. subst r. apply put_valid_at; [exact Hw|]. right. left. exact Hn.
-      + right. left. rewrite (raw_get_put_other bk base w r E). exact Hn.
-    - right. right. apply (fold_keeps_valid_at [w]); [constructor; [exact Hw|constructor]|exact Hv].
-  Qed.
-
-  Lemma fold_repairable : forall ws base r, Forall (fun w => vfy w = true) ws ->
-    repairable base r -> repairable (fold_left (raw_put bk) ws base) r.
-  Proof.
-    induction ws as [|w ws IH]; intros base r Hall Hr; simpl; [exact Hr|].
-    inversion Hall as [|? ? Hw Hws]; subst. apply IH; [exact Hws|].
-    apply raw_put_repairable; assumption.
-  Qed.
-
-  Lemma fold_nonempty : forall ws base, base <> [] -> fold_left (raw_put bk) ws base <> [].
+  Lemma fold_nonempty : forall ws base, base <> [] -> fold_left replace ws base <> [].
   Proof.
     induction ws as [|w ws IH]; intros base H; simpl; [exact H|].
-    apply IH. apply raw_put_nonempty. exact H.
+    apply IH. apply replace_nonempty.
   Qed.
 
   Lemma map_stored_true : forall ws, map (stored_of chained true) ws = ws.
   Proof. induction ws; simpl; congruence. Qed.
 
-  (* tryNode in resync mode, any quiet stream *)
-  Lemma tn_resync_any : forall r l st, quiet_stream l -> repairable (s_base st) r ->
+  (* tryNode in resync mode, any quiet stream: success means the target round is valid now *)
+  Lemma tn_resync_any : forall r l st, quiet_stream l ->
     let o := tn_loop vfy chained bk sk true r st l in
-    (tn_r o = TnOk /\ valid_at (s_base (tn_st o)) r) \/
-    (tn_r o = TnFail /\ repairable (s_base (tn_st o)) r).
+    (tn_r o = TnOk /\ valid_at (s_base (tn_st o)) r) \/ tn_r o = TnFail.
   Proof.
-    intros r. induction l as [|e l IH]; intros st Hq Hr; simpl.
-    - right. auto.
+    intros r. induction l as [|e l IH]; intros st Hq; simpl.
+    - right. reflexivity.
     - assert (Hq' : quiet_stream l) by (intro; apply Hq; right; assumption).
-      destruct e as [m b| |]; [|exfalso; apply Hq; left; reflexivity|right; auto].
+      destruct e as [m b| |]; [|exfalso; apply Hq; left; reflexivity|right; reflexivity].
       assert (Hmain : let o :=
           (if negb (vfy b) then mkTn TnFail st []
            else if b_round b =? r then mkTn TnOk (insecure_put bk st b) [b]
            else mkTn (tn_r (tn_loop vfy chained bk sk true r (insecure_put bk st b) l))
                      (tn_st (tn_loop vfy chained bk sk true r (insecure_put bk st b) l))
                      (b :: tn_ws (tn_loop vfy chained bk sk true r (insecure_put bk st b) l))) in
-          (tn_r o = TnOk /\ valid_at (s_base (tn_st o)) r) \/
-          (tn_r o = TnFail /\ repairable (s_base (tn_st o)) r)).
-      { destruct (vfy b) eqn:Hv; simpl; [|right; auto].
+          (tn_r o = TnOk /\ valid_at (s_base (tn_st o)) r) \/ tn_r o = TnFail).
+      { destruct (vfy b) eqn:Hv; simpl; [|right; reflexivity].
         destruct (b_round b =? r) eqn:E; simpl.
-        - apply Z.eqb_eq in E. left. split; [reflexivity|]. subst r. apply put_valid_at; assumption.
-        - apply (IH (insecure_put bk st b) Hq'). simpl. apply raw_put_repairable; assumption. }
-      destruct m; try exact Hmain; right; auto.
+        - apply Z.eqb_eq in E. left. split; [reflexivity|]. subst r.
+          exact (put_valid_at (s_base st) b Hv).
+        - apply (IH (insecure_put bk st b) Hq'). }
+      destruct m; try exact Hmain; right; reflexivity.
   Qed.
 
   Definition quiet_peer (p : peer) : Prop := p_self p = true \/ forall f, quiet_stream (p_stream p f).
@@ -1011,11 +1024,11 @@ Section REPAIR.
     exists m tl, p_stream p r = Pkt m (chain r) :: tl /\ m <> MdOther.
 
   Lemma sync_resync_honest : forall r pre h post st, 1 <= r ->
-    Forall quiet_peer pre -> honest_at r h -> s_base st <> [] -> repairable (s_base st) r ->
+    Forall quiet_peer pre -> honest_at r h -> s_base st <> [] ->
     let o := sync_loop vfy chained bk sk r r st (pre ++ h :: post) in
     sy_r o = SyncOk /\ valid_at (s_base (sy_st o)) r.
   Proof.
-    intros r. induction pre as [|p pre IH]; intros h post st H1 Hall Hh Hne Hr.
+    intros r. induction pre as [|p pre IH]; intros h post st H1 Hall Hh Hne.
     - destruct Hh as [Hself [Hreach [m [tl [Hs Hm]]]]]. simpl. rewrite Hself. unfold try_node.
       destruct (raw_last_some _ Hne) as [last Hl]. rewrite Hl.
       replace (negb (r =? 0) && (r <? r)) with false
@@ -1024,9 +1037,9 @@ Section REPAIR.
       replace (r =? 0) with false by (symmetry; apply Z.eqb_neq; lia).
       replace (0 <? r) with true by (symmetry; apply Z.ltb_lt; lia).
       rewrite Hs. simpl. rewrite (chain_vfy r H1). simpl. rewrite chain_round, Z.eqb_refl.
-      assert (Hv : valid_at (raw_put bk (s_base st) (chain r)) r).
+      assert (Hv : valid_at (s_base (insecure_put bk st (chain r))) r).
       { pose proof (put_valid_at (s_base st) (chain r) (chain_vfy r H1)) as P.
-        rewrite chain_round in P. apply P. exact Hr. }
+        rewrite chain_round in P. exact P. }
       destruct m; try contradiction; simpl; auto.
     - inversion Hall as [|? ? Hp Hps]; subst. simpl.
       destruct (p_self p) eqn:Hself; [apply IH; assumption|].
@@ -1038,13 +1051,13 @@ Section REPAIR.
       replace (0 <? r) with true by (symmetry; apply Z.ltb_lt; lia).
       destruct (negb (p_reach p)); simpl.
       + apply IH; assumption.
-      + pose proof (tn_resync_any r (p_stream p r) st (Hp r) Hr) as T. simpl in T.
+      + pose proof (tn_resync_any r (p_stream p r) st (Hp r)) as T. simpl in T.
         pose proof (tn_loop_generic vfy chained bk sk true r (p_stream p r) st) as [G1 [G2 _]].
-        destruct T as [[T1 T2]|[T1 T2]]; rewrite T1; simpl.
+        destruct T as [[T1 T2]|T1]; rewrite T1; simpl.
         * auto.
         * assert (Hne' : s_base (tn_st (tn_loop vfy chained bk sk true r st (p_stream p r))) <> []).
-          { rewrite G2. apply fold_nonempty. exact Hne. }
-          specialize (IH h post _ H1 Hps Hh Hne' T2). simpl in IH. exact IH.
+          { rewrite G2, map_stored_true. apply fold_nonempty. exact Hne. }
+          specialize (IH h post _ H1 Hps Hh Hne'). simpl in IH. exact IH.
   Qed.
 
   Definition job_ok (j : Z * (list peer * list peer)) : Prop :=
@@ -1052,36 +1065,31 @@ Section REPAIR.
     exists pre h post, fst (snd j) = pre ++ h :: post /\ Forall quiet_peer pre /\ honest_at (fst j) h.
 
   Lemma correct_past_repairs : forall jobs st,
-    s_base st <> [] ->
-    (forall j, In j jobs -> job_ok j /\ repairable (s_base st) (fst j)) ->
+    s_base st <> [] -> (forall j, In j jobs -> job_ok j) ->
     let o := correct_past vfy chained bk sk st jobs in
     co_r o = CorrOk /\ forall j, In j jobs -> valid_at (s_base (co_st o)) (fst j).
   Proof.
     induction jobs as [|[r [a1 a2]] js IH]; intros st Hne Hjobs; simpl.
     - split; [reflexivity|]. intros j [].
-    - destruct (Hjobs (r, (a1, a2)) (or_introl eq_refl)) as [[H1 [pre [h [post [Ha [Hq Hh]]]]]] Hr].
-      simpl in H1, Ha, Hh, Hr. subst a1.
+    - destruct (Hjobs (r, (a1, a2)) (or_introl eq_refl)) as [H1 [pre [h [post [Ha [Hq Hh]]]]]].
+      simpl in H1, Ha, Hh. subst a1.
+      pose proof (sync_resync_honest r pre h post st H1 Hq Hh Hne) as [S1 S2].
       assert (Hres : resync vfy chained bk sk r r st (pre ++ h :: post) a2 =
                      sync_loop vfy chained bk sk r r st (pre ++ h :: post)).
       { unfold resync. replace (r =? 0) with false by (symmetry; apply Z.eqb_neq; lia).
-        pose proof (sync_resync_honest r pre h post st H1 Hq Hh Hne Hr) as [S1 _].
         rewrite S1. reflexivity. }
-      rewrite Hres.
-      pose proof (sync_resync_honest r pre h post st H1 Hq Hh Hne Hr) as [S1 S2]. rewrite S1.
+      rewrite Hres, S1.
       pose proof (sync_loop_generic vfy chained bk sk r r (pre ++ h :: post) st) as [G1 [G2 _]].
       replace (0 <? r) with true in G2 by (symmetry; apply Z.ltb_lt; lia).
       rewrite map_stored_true in G2.
       set (st1 := sy_st (sync_loop vfy chained bk sk r r st (pre ++ h :: post))) in *.
       assert (Hne1 : s_base st1 <> []) by (rewrite G2; apply fold_nonempty; exact Hne).
-      assert (Hjobs1 : forall j, In j js -> job_ok j /\ repairable (s_base st1) (fst j)).
-      { intros j Hj. destruct (Hjobs j (or_intror Hj)) as [J1 J2]. split; [exact J1|].
-        rewrite G2. apply fold_repairable; assumption. }
-      specialize (IH st1 Hne1 Hjobs1). simpl in IH. destruct IH as [I1 I2].
+      specialize (IH st1 Hne1 (fun j Hj => Hjobs j (or_intror Hj))). simpl in IH. destruct IH as [I1 I2].
       simpl. split; [exact I1|].
       intros j [Hj|Hj]; [|apply I2; exact Hj].
       subst j. simpl.
       assert (Hpos : forall j, In j js -> 0 < fst j).
-      { intros j Hj. destruct (Hjobs j (or_intror Hj)) as [[J1 _] _]. lia. }
+      { intros j Hj. destruct (Hjobs j (or_intror Hj)) as [J1 _]. lia. }
       pose proof (correct_past_generic vfy chained bk sk js st1 Hpos) as [C1 [C2 _]].
       rewrite map_stored_true in C2. rewrite C2. apply fold_keeps_valid_at; assumption.
   Qed.
